@@ -1,6 +1,6 @@
 SPECIFICATION Spec
 CONSTANTS
-  Part = "rewind"
+  Parts = {"rewind"}
   Seeds = {"s1", "s2"}
   Comps = {"c0", "nmax", "h0"}
   HardComps = {"h0"}
@@ -25,4 +25,4 @@ CONSTANTS
   ShapeStride = 1
   PairStride = 401
   WalPicks = 1
-INVARIANTS TypeOK KeychainMatrixOK ViewMatrixOK NeverGarbage OtherSeedNothing OwnFormatOnly ProofsVerify Determinism NoCollision SwappedProofNothing PaddingIgnored EmitPair
+INVARIANTS TypeOK KeychainMatrixOK ViewMatrixOK NeverGarbage OtherSeedNothing OwnFormatOnly ProofsVerify Determinism NoCollision SwappedProofNothing EmitPair
